@@ -25,7 +25,7 @@ RULE = (
     "neighbour accepted within 1e-9 of a rounding boundary); millis[a:b] == seconds[a/1000:b/1000]; TypeError for a "
     "step or wrong-typed bounds. Non-trivial = len >= 2, bytes per sample > 1 and a negative or out-of-range bound."
 )
-MUST_HIT = ["view_samples", "view_seconds", "view_millis", "region_carrying_a_start", "bound_with_thousands_of_digits", "type_error", "negative_bound", "out_of_range", "empty_region",
+MUST_HIT = ["view_samples", "view_seconds", "view_millis", "region_carrying_a_start", "bound_with_thousands_of_digits", "slice_of_a_slice", "view_alias", "number_of_another_type", "type_error", "negative_bound", "out_of_range", "empty_region",
             "huge_int", "region_length_around_power_of_two", "view_of_temporary_region"]
 ASSUMPTIONS = ["floats beyond 1e15 seconds are not generated (t*rate overflows the sample index space)",
                "the statement defines the milliseconds view through t/1000: integer millisecond bounds are generated up to 10**300 in "
@@ -36,6 +36,17 @@ BOUNDS = {"quick": dict(n=700, maxlen=12), "thorough": dict(n=15000, maxlen=16)}
 
 def unpack(v):
     if isinstance(v, dict):
+        if "num" in v:
+            # numbers that are neither int nor float: bounds of the wrong type
+            import decimal
+            import fractions
+
+            import numpy as np
+
+            kind, x = v["num"]
+            return {"Fraction": lambda: fractions.Fraction(x).limit_denominator(1000), "Decimal": lambda: decimal.Decimal(str(x)),
+                    "np.float32": lambda: np.float32(x), "np.float16": lambda: np.float16(x), "np.int64": lambda: np.int64(int(x)),
+                    "np.int32": lambda: np.int32(int(x)), "complex": lambda: complex(x, 0), "bool": lambda: bool(x)}[kind]()
         if "pow10" in v:
             # an int with thousands of digits (beyond what int -> str conversion accepts by default)
             return (-1 if v["pow10"] < 0 else 1) * 10 ** abs(v["pow10"])
@@ -62,7 +73,44 @@ def candidates(q, mode):
     return out
 
 
+def check_threads(case, rec):
+    """One region sliced by several threads at once, each with its own bounds: a region is immutable,
+    every slice must be what a single thread gets."""
+    import sys
+    import threading
+
+    sr, sw, ch, N = case["sr"], case["sw"], case["ch"], case["N"]
+    bps = sw * ch
+    data = content(N, bps, case["salt"])
+    region = auditok.AudioRegion(data, sr, sw, ch)
+    jobs_ = [tuple(x) for x in case["threads"]]
+    want = {ab: data[ab[0] * bps: ab[1] * bps] for ab in jobs_}
+    wrong = []
+
+    def work(ab):
+        for _ in range(case["n"]):
+            if bytes(region[ab[0]: ab[1]]) != want[ab]:
+                wrong.append(ab)
+                return
+
+    old = sys.getswitchinterval()
+    sys.setswitchinterval(1e-6)
+    try:
+        ts = [threading.Thread(target=work, args=(ab,)) for ab in jobs_]
+        for t in ts:
+            t.start()
+        for t in ts:
+            t.join(60)
+    finally:
+        sys.setswitchinterval(old)
+    rec.note(case, True, {"region_sliced_by_parallel_threads"}, out="ok")
+    if wrong:
+        raise Violation(f"region[{wrong[0][0]}:{wrong[0][1]}] returned other samples while other threads were slicing the same region", case)
+
+
 def check_case(case, rec):
+    if "threads" in case:
+        return check_threads(case, rec)
     sr, sw, ch, N = case["sr"], case["sw"], case["ch"], case["N"]
     bps = sw * ch
     data = content(N, bps, case["salt"])
@@ -91,9 +139,26 @@ def check_case(case, rec):
             gc.collect()
         classes.add("view_of_temporary_region")
     else:
-        target = {"samples": region, "seconds": region.seconds, "millis": region.millis}[view]
+        base_region = region
+        if case.get("depth2"):
+            # the region sliced is itself a slice (of a longer region): its views are its own
+            pre, post = case["depth2"]
+            longer = auditok.AudioRegion(content(pre, bps, 77) + data + content(post, bps, 78), sr, sw, ch)
+            base_region = longer[pre: pre + N]
+            if bytes(base_region) != data:
+                raise Violation("a slice of a region does not hold the sliced samples", case)
+            classes.add("slice_of_a_slice")
+        alias = case.get("alias")
+        if alias and view != "samples":
+            # documented short names of the views
+            target = getattr(base_region, alias)
+            classes.add("view_alias")
+        else:
+            target = {"samples": base_region, "seconds": base_region.seconds, "millis": base_region.millis}[view]
     ok_types = {"samples": (int,), "seconds": (int, float), "millis": (int,)}[view]
-    bad = step is not None or any(x is not None and not isinstance(x, ok_types) for x in (a, b))
+    bad = step is not None or any(x is not None and (not isinstance(x, ok_types) or isinstance(x, bool) and False) for x in (a, b))
+    if any(isinstance(case[k], dict) and "num" in case[k] for k in ("a", "b")) and bad:
+        classes.add("number_of_another_type")
     if N == 0:
         classes.add("empty_region")
     if bad:
@@ -178,6 +243,15 @@ def explicit_cases():
         dict(base, start=0.2, view="samples", a=-5, b=None), dict(base, start=0.2, view="seconds", a=-0.5, b=None),
         dict(base, start=0.05, view="millis", a=-300, b=-100), dict(base, start=1.5, view="samples", a=-7, b=-2, temp="gc"),
         dict(base, start=0.0, view="samples", a=-1, b=None), dict(base, start=0.3, view="samples", a=-100, b=3),
+        dict(base, N=40, threads=[[0, 10], [5, 30], [10, 20], [1, 39]], n=4000),
+        dict(base, N=12, sw=1, ch=1, threads=[[0, 6], [6, 12]], n=6000),
+        dict(base, view="seconds", a={"num": ["Fraction", 0.5]}, b=None), dict(base, view="seconds", a=0.1, b={"num": ["np.float32", 0.5]}),
+        dict(base, view="seconds", a={"num": ["Decimal", 0.2]}, b=0.6), dict(base, view="seconds", a={"num": ["np.float16", 0.25]}, b=None),
+        dict(base, view="seconds", a={"num": ["np.int64", 0]}, b=None), dict(base, view="samples", a={"num": ["np.int64", 2]}, b=5),
+        dict(base, view="millis", a={"num": ["np.int32", 100]}, b=None), dict(base, view="seconds", a={"num": ["complex", 0.1]}, b=None),
+        dict(base, view="seconds", a=0.1, b=0.5, alias="sec", depth2=[3, 2]), dict(base, view="seconds", a=0.2, b=None, alias="s", depth2=[5, 0]),
+        dict(base, view="millis", a=100, b=400, alias="ms", depth2=[4, 4]), dict(base, view="millis", a=-300, b=None, alias="ms", depth2=[1, 9]),
+        dict(base, view="samples", a=1, b=4, depth2=[2, 2]), dict(base, view="seconds", a=0.0, b=0.3, alias="sec"),
     ]
 
 
@@ -232,7 +306,20 @@ def strategy(draw):
     elif draw(rarely(12)) and not isinstance(b, dict):
         b = {"pow10": draw(st.sampled_from(pows))}
     start = draw(st.one_of(st.none(), st.none(), st.sampled_from([0.0, 0.05, 0.2, 1.5, 1234.5]), st.floats(0, 3, allow_nan=False)))
-    return dict(base, view=view, a=a, b=b, step=step, temp=draw(st.sampled_from([None, None, "drop", "gc"])), start=start)
+    extra = {}
+    if draw(st.booleans()):
+        extra["alias"] = {"seconds": draw(st.sampled_from(["sec", "s"])), "millis": "ms", "samples": None}[view]
+    if draw(rarely(3)) and N <= 200:
+        extra["depth2"] = [draw(st.integers(0, 9)), draw(st.integers(0, 9))]
+    if draw(rarely(10)):
+        num = {"num": [draw(st.sampled_from(["Fraction", "Decimal", "np.float32", "np.float16", "np.int64", "np.int32", "complex"])),
+                       draw(st.sampled_from([0, 1, 0.5, 0.25, 2]))]}
+        if draw(st.booleans()):
+            a = num
+        else:
+            b = num
+        return dict(base, view=view, a=a, b=b, step=None, temp=None, start=start, **extra)
+    return dict(base, view=view, a=a, b=b, step=step, temp=draw(st.sampled_from([None, None, "drop", "gc"])), start=start, **extra)
 
 
 MS_RATES = (8, 10, 100, 160, 1000, 8000, 11025, 16000, 44100, 48000)
